@@ -507,10 +507,15 @@ def run_file(sh, fc, heavy=False):
                 wr(fname, names[0], objs[0], forms=forms, **kw)
             elif style == "dict":
                 wr(fname, dict(zip(names, objs)), **kw)
-            else:   # dict of (matrix, form)
-                wr(fname, {nm: (o, f) for nm, o, f in
-                           zip(names, objs, forms if isinstance(forms, list) else [forms] * n)},
-                   **kw)
+            else:   # dict of (matrix, form); every other file with the automatic-form
+                #     entries handed over as BARE matrices between the tuples (what
+                #     `dct = load(f); dct['new'] = arr; write(g, dct)` produces)
+                fl_ = forms if isinstance(forms, list) else [forms] * n
+                mixed = fc.get("index", 0) % 2 == 1
+                if mixed and any(f is None for f in fl_) and any(f is not None for f in fl_):
+                    sh.count("cell:style-dict-mixed-tuples-and-bare")
+                wr(fname, {nm: (o if (mixed and f is None) else (o, f))
+                           for nm, o, f in zip(names, objs, fl_)}, **kw)
     except Exception as e:
         doc = isinstance(e, ValueError) and "maximum matrix dimensions" in str(e)
         if doc and fc.get("over_limit"):
